@@ -356,6 +356,119 @@ def unknown_marker(worlds, name, args) -> str:
     return ":unregistered-id" if any(x not in reg for x in labels) else ""
 
 
+def bulk_comparison(ctx: RunCtx) -> BoundedResult:
+    """Bounded stand-in: the same 330 invocations (110 per status class: more than any plausible page or batch size) on both backends; every bulk read must agree,
+    also while the result set is being consumed and changed (recovery scans)."""
+    from pynenc.arguments import Arguments
+    from pynenc.call import Call
+    from pynenc.invocation.dist_invocation import DistributedInvocation
+    from pynenc.invocation.status import InvocationStatus as S
+    from pynenc.workflow.workflow_identity import WorkflowIdentity
+    from . import verif_tasks as vt
+    from .realapp import real_app, runner_ctx
+    res = BoundedResult("bulk_comparison", "330 invocations of two tasks with a fixed status pattern on both backends: counts, id listings, pagination with page sizes 7/50/100, "
+                        "filter_by_status, queue drain order, both recovery scans consumed lazily while each id is moved on")
+    N = 330
+    n = 0
+    obs = {}
+    with controlled_clock():
+        for backend in ("mem", "sqlite"):
+            Clock.t = 1_700_000_000.0
+            with real_app(backend, app_id="bulk", max_pending_seconds=5.0, runner_considered_dead_after_minutes=1.0) as app:
+                tasks = [app.task(vt.key_task), app.task(vt.add)]
+                invs = []
+                for k in range(N):
+                    task = tasks[k % 2]
+                    args = {"key": f"v{k % 5}", "other": f"v{(k // 2) % 3}"} if k % 2 == 0 else {"x": k % 4, "y": 1}
+                    iid = f"bulk-{k:03d}"
+                    invs.append(DistributedInvocation(Call(task, Arguments(args)), iid, None, WorkflowIdentity.new_workflow(invocation_id=iid, task_id=task.task_id), True))
+                app.state_backend.upsert_invocations(invs)
+                app.orchestrator.register_new_invocations(invs)
+                for inv in invs:
+                    app.orchestrator.index_arguments_for_concurrency_control(inv)
+                o, ctxs = app.orchestrator, {r: runner_ctx(r) for r in ("r1", "r2")}
+                o.register_runner_heartbeats(["r1"])
+                for k, inv in enumerate(invs):
+                    Clock.t += 0.01
+                    if k % 3 != 0:
+                        o.set_invocation_status(inv.invocation_id, S.PENDING, ctxs["r1" if k % 2 else "r2"])
+                    if k % 3 == 2:
+                        o.set_invocation_status(inv.invocation_id, S.RUNNING, ctxs["r1" if k % 2 else "r2"])
+                    app.broker.route_invocation(inv.invocation_id)
+                ids = [i.invocation_id for i in invs]
+                out = {}
+                out["count_all"] = o.count_invocations()
+                for t_i, t in enumerate(tasks):
+                    out[f"count_task{t_i}"] = o.count_invocations(t.task_id)
+                    out[f"ids_task{t_i}"] = sorted(o.get_task_invocation_ids(t.task_id))
+                    for st in (S.REGISTERED, S.PENDING, S.RUNNING):
+                        out[f"count_task{t_i}_{st.name}"] = o.count_invocations(t.task_id, [st])
+                        out[f"existing_task{t_i}_{st.name}"] = sorted(o.get_existing_invocations(t, None, [st]))
+                for size in (7, 50, 100):
+                    pages, off = [], 0
+                    while off < 400:
+                        page = list(o.get_invocation_ids_paginated(None, None, size, off))
+                        if not page:
+                            break
+                        pages.append(page)
+                        off += size
+                    flat = [x for pg in pages for x in pg]
+                    out[f"pages_{size}"] = ([len(pg) for pg in pages], sorted(flat), len(flat) == len(set(flat)))
+                ser = app.client_data_store.serialize
+                for kv in range(5):                                  # key filters, including key arguments whose values are equal
+                    for ov in range(3):
+                        out[f"by_key_v{kv}_v{ov}"] = sorted(o.get_existing_invocations(tasks[0], {"key": ser(f"v{kv}"), "other": ser(f"v{ov}")}, None))
+                    out[f"by_key_v{kv}"] = sorted(o.get_existing_invocations(tasks[0], {"key": ser(f"v{kv}")}, [S.PENDING, S.RUNNING]))
+                out["filter_pending"] = sorted(o.filter_by_status(ids, frozenset([S.PENDING])))
+                out["filter_final"] = sorted(o.filter_final(ids))
+                Clock.t += 120.0                                   # r1 and r2 are silent now, every PENDING is overdue
+                rec = runner_ctx("recovery")
+                taken_p, taken_r = [], []
+                for iid in o.get_pending_invocations_for_recovery():        # consumed lazily while every id is moved on, like the core task
+                    o.set_invocation_status(iid, S.PENDING_RECOVERY, rec)
+                    taken_p.append(iid)
+                for iid in o.get_running_invocations_for_recovery():
+                    o.set_invocation_status(iid, S.RUNNING_RECOVERY, rec)
+                    taken_r.append(iid)
+                out["recovered_pending"], out["recovered_running"] = sorted(taken_p), sorted(taken_r)
+                out["left_pending"] = o.count_invocations(None, [S.PENDING])
+                out["left_running"] = o.count_invocations(None, [S.RUNNING])
+                drained = []
+                while (i := app.broker.retrieve_invocation()) is not None:
+                    drained.append(i)
+                out["queue_order"] = drained
+                obs[backend] = out
+    for key in obs["mem"]:
+        n += 1
+        if obs["mem"][key] != obs["sqlite"][key]:
+            res.failures.append({"what": f"{key}: mem {str(obs['mem'][key])[:150]} != sqlite {str(obs['sqlite'][key])[:150]}", "finding_key": f"bulk:{key}"})
+    # independent expectations, so that a defect shared by both backends does not hide behind their agreement
+    exp_pending = len([k for k in range(N) if k % 3 == 1])
+    exp_running = len([k for k in range(N) if k % 3 == 2])
+    expected_queue = [f"bulk-{k:03d}" for k in range(N)] * 2  # registration routes the batch in list order, then each id is routed once more in the same order
+    want_keys = {}
+    for kv in range(5):
+        for ov in range(3):
+            want_keys[f"by_key_v{kv}_v{ov}"] = sorted(f"bulk-{k:03d}" for k in range(0, N, 2) if k % 5 == kv and (k // 2) % 3 == ov)
+    for backend in obs:
+        n += 1
+        o_ = obs[backend]
+        wrong = [k for k, v in want_keys.items() if o_[k] != v]
+        if wrong:
+            res.failures.append({"what": f"{backend}: same-key lookup {wrong[0]} returned {len(o_[wrong[0]])} ids, expected {len(want_keys[wrong[0]])} "
+                                         f"(all key pairs must match, also when two key arguments have equal values)", "finding_key": f"bulk-expectation:{backend}:key-lookup"})
+        if len(o_["recovered_pending"]) != exp_pending or len(o_["recovered_running"]) != exp_running or o_["left_pending"] or o_["left_running"] \
+                or o_["count_all"] != N or o_["queue_order"] != expected_queue:
+            res.failures.append({"what": f"{backend}: bulk expectations: recovered {len(o_['recovered_pending'])}/{exp_pending} pending and {len(o_['recovered_running'])}/{exp_running} "
+                                         f"running, left {o_['left_pending']}/{o_['left_running']}, count {o_['count_all']}/{N}, queue in routing order: "
+                                         f"{o_['queue_order'] == expected_queue} ({len(o_['queue_order'])} messages)", "finding_key": f"bulk-expectation:{backend}"})
+    res.failures = res.failures[:10]
+    res.cases = n
+    res.distinct = n
+    res.samples = [{"invocations": N, "pattern": "k%3: REGISTERED / PENDING / RUNNING under r1|r2"}]
+    return res
+
+
 def differential(ctx: RunCtx) -> BoundedResult:
     from .realapp import real_app
     thorough = ctx.tier == "thorough"
@@ -471,7 +584,7 @@ def build(ctx: RunCtx) -> Prop:
                        "one contract; observational equivalence itself is a bounded differential run of the two real backends",
         level="other", technique="shared interface contracts verified for both implementations (AST->z3 VCs; SQL text only at glue level) + bounded differential run "
                                  "of the real in-memory and SQLite backends over operation sequences with a controlled clock",
-        registry=reg, verify=[], lemmas=[interface_lemmas], bounded=[differential], parts=PAIRS,
+        registry=reg, verify=[], lemmas=[interface_lemmas], bounded=[differential, bulk_comparison], parts=PAIRS,
         assumptions=["ids, runner ids and payloads come from a small universe; timestamps come from one controlled clock for both backends",
                      "the meaning of SQL statements is not modelled: equivalence of the SQLite implementation is only sampled"],
         trusted_base=["pyvc VC generator", "z3 5.1", "sqlite3 of the Python build"],
